@@ -184,10 +184,10 @@ VERBATIM = {"XYZ", "Pdb", " sdf", "sdf ", "PDB"}
 EXT = {"molekel": "mkl"}
 
 
-def _api_run(infile, outpath, many, infmt, outfmt, allow, pre):
+def _api_run(infile, outpath, many, infmt, outfmt, allow, pre, keep=False):
     from iodata import dump_many, dump_one, load_many, load_one
 
-    if os.path.exists(outpath):
+    if os.path.exists(outpath) and not keep:
         os.unlink(outpath)
     if pre is not None:
         with open(outpath, "w") as fh:
@@ -228,8 +228,8 @@ def _convert_run(infile, outpath, many, infmt, outfmt, allow, pre):
     return err, content
 
 
-def _cli_run(infile, outpath, many, infmt, outfmt, allow, pre):
-    if os.path.exists(outpath):
+def _cli_run(infile, outpath, many, infmt, outfmt, allow, pre, keep=False):
+    if os.path.exists(outpath) and not keep:
         os.unlink(outpath)
     if pre is not None:
         with open(outpath, "w") as fh:
@@ -294,7 +294,7 @@ def check_case(case, work):
         shutil.copyfile(str(REPO / "iodata" / "test" / "data" / case[7][2]), real)
         infile = os.path.join(gd, fname)
         os.symlink(real, infile)
-    elif len(case) > 6:
+    elif len(case) > 6 and case[6] is not None:
         gd = tempfile.mkdtemp(dir=work)
         infile = os.path.join(gd, fname)
         with open(infile, "w") as fh:
@@ -314,6 +314,24 @@ def check_case(case, work):
         infmt, outfmt, name = target[3:], None, "out.xyz"
     if target == "mkl":
         outfmt = "molekel" if explicit else None
+    if len(case) > 7 and case[7] and case[7][0] == "inplace":
+        # the output name is the input name: each executor works on its own copy
+        base = os.path.basename(infile)
+        if explicit:
+            infmt = outfmt
+        cp1, cp2 = os.path.join(d, base), os.path.join(tempfile.mkdtemp(dir=work), base)
+        shutil.copyfile(infile, cp1)
+        shutil.copyfile(infile, cp2)
+        a_err, a_bytes = _api_run(cp1, cp1, many, infmt, outfmt, allow, None, keep=True)
+        rc, c_bytes, stderr = _cli_run(cp2, cp2, many, infmt, outfmt, allow, None, keep=True)
+        prebytes = open(infile, "rb").read()
+        if rc == 0:
+            if a_err is not None:
+                return "bad", f"in-place: CLI exit 0 but the API calls raise {a_err}"
+            if c_bytes != a_bytes:
+                return "bad", "in-place: CLI exit 0 with a file different from the one the API calls leave"
+            return "ok-success", None
+        return ("ok-failure", None) if a_err is not None and a_err in stderr else ("bad", f"in-place: CLI exit {rc}, API {a_err or 'succeeds'}")
     a_err, a_bytes = _api_run(infile, os.path.join(d, "api_" + name) if False else os.path.join(d, name), many, infmt, outfmt, allow, pre)
     d2 = tempfile.mkdtemp(dir=work)
     rc, c_bytes, stderr = _cli_run(infile, os.path.join(d2, name), many, infmt, outfmt, allow, pre)
@@ -347,7 +365,7 @@ def _case_input(case, work):
         shutil.copyfile(str(REPO / "iodata" / "test" / "data" / case[7][2]), real)
         infile = os.path.join(gd, fname)
         os.symlink(real, infile)
-    elif len(case) > 6:
+    elif len(case) > 6 and case[6] is not None:
         infile = os.path.join(gd, fname)
         with open(infile, "w") as fh:
             fh.write(case[6])
@@ -400,6 +418,13 @@ def _cases(ctx):
             if target in VERBATIM:
                 e = True
             cases.append((fname, target, many, e, a, p))
+    # --many with an input format that has no trajectory reader: the API calls refuse before the output is touched
+    for src, tgt in (("h2o_sto3g.wfn", "xyz"), ("water_hfs_321g.fchk", "xyz"), ("li_sp_virtual_orca.molden", "pdb"), ("POSCAR.water", "sdf")):
+        for pre in (None, "OLD CONTENT\n"):
+            cases.append((src, tgt, True, False, False, pre))
+    # conversion of a file onto itself (input and output name the same file)
+    for src, explicit in (("water.xyz", False), ("example.sdf", False), ("caffeine.mol2", False), ("water.xyz", True)):
+        cases.append((src, os.path.splitext(src)[1][1:], False, explicit, False, None, None, ("inplace",)))
     # paths that are symbolic links: the format is inferred from the name given, not from the link target's name
     for link, target_name, src, tgt in (("in.xyz", "data.sdf", "water.xyz", "xyz"), ("in.sdf", "store.xyz", "example.sdf", "xyz"),
                                         ("cur.xyz", "frame_0042.pdb", "water.xyz", "pdb")):
